@@ -16,7 +16,7 @@ RULE = (
     "Generated: positive-duration instance (flexible or not, unused machine "
     "ids included) x graph builder (4) x updater flags "
     "(remove_completed_machine_nodes / job_nodes) x optional filter "
-    "composition x whether an IsCompletedObserver already exists x choice "
+    "composition x whether an IsCompletedObserver already exists x optionally a composite over the subscribed feature observers whose matrices the caller overwrites in place after every dispatch x optionally (disjunctive builder) job nodes and a global node added from the public building blocks x choice "
     "sequence (among available operations); updater attached before the first "
     "dispatch; optionally 1-3 resets, the checks continuing in every following episode; optionally the dispatcher (updater included) is deep-copied at a generated step, the original played on, and the checks continue on the copy and its graph. Oracle after every "
     "dispatch with the independent model's scheduled / completed sets: "
@@ -49,6 +49,8 @@ def strategy(tier):
             "history": gen.histories(max_len=44),
             "reset_at": st.one_of(st.none(), st.integers(0, 20)),
             "fork": gen.pick([None, 1, None, 0, None, 4, None, 2]),
+            "scribble": gen.pick([False, False, True]),
+            "job_nodes_only": gen.pick([False, True]),
             "extra_resets": st.integers(0, 2),
             "deferred": st.booleans(),
             "attach_after": st.one_of(st.just(0), st.just(0), st.integers(1, 6)),
@@ -111,6 +113,21 @@ def check_case(case, ctx):
         add_machine_machine_edges(graph)
         add_same_job_operations_edges(graph)
         ctx.label("custom_node_order")
+    if case.get("job_nodes_only") and case["builder"] == "disjunctive":
+        # the disjunctive graph extended with job nodes and a global node
+        # from the public building blocks (job nodes, but no machine nodes)
+        from job_shop_lib.graphs import (
+            add_global_node,
+            add_job_global_edges,
+            add_job_nodes,
+            add_operation_job_edges,
+        )
+
+        add_job_nodes(graph)
+        add_operation_job_edges(graph)
+        add_global_node(graph)
+        add_job_global_edges(graph)
+        ctx.label("job_nodes_without_machine_nodes")
     flags = case["flags"]
     deferred = bool(case.get("deferred"))
     attach_after = min(case.get("attach_after", 0), ref(inst).n_ops - 1) if case["reset_at"] is None else 0
@@ -132,6 +149,15 @@ def check_case(case, ctx):
     if deferred:
         d.subscribe(upd)  # attached by hand, still before the first dispatch
         ctx.label("deferred_subscription")
+    scribble = None
+    if case.get("scribble"):
+        # a consumer of the features (a composite over all subscribed feature
+        # observers, as an environment has) rescales the matrices it is given
+        # in place after every dispatch
+        from job_shop_lib.dispatching.feature_observers import CompositeFeatureObserver
+
+        scribble = CompositeFeatureObserver(d)
+        ctx.label("features_edited_in_place")
     dur, mach = inst["durations"], inst["machines"]
     used = {x for row in mach for ms in row for x in ms}
     all_used = len(used) == 1 + max(used)
@@ -167,6 +193,10 @@ def check_case(case, ctx):
             x = ms[b % len(ms)]
             d.dispatch(instance.jobs[j][p], x)
             m.apply(j, x)
+            if scribble is not None:
+                for arr in scribble.features.values():
+                    arr *= 0.0
+                    arr += 1.0
             g = upd.job_shop_graph
             removed = [bool(r) for r in g.removed_nodes]
             now = m.min_start(m.available(case["filters"]))
